@@ -118,10 +118,24 @@ impl Prop for C17 {
 
     fn run_case(&mut self, _idx: u64, rng: &mut Rng, ctx: &mut Ctx) {
         let nv = rng.range(1, 4) as usize;
+        // a DEFtype setting for the variables' first letters: targets with a suffix of their own ignore it,
+        // targets without one get their type from it
+        let (defstmt, ty_v, ty_w): (Option<&str>, Ty, Ty) = if rng.chance(1, 3) {
+            *rng.pick(&[
+                (Some("DEFSTR V-W"), Ty::Str, Ty::Str),
+                (Some("DEFSTR A-Z"), Ty::Str, Ty::Str),
+                (Some("DEFINT V-W"), Ty::I, Ty::I),
+                (Some("DEFDBL V"), Ty::D, Ty::S),
+                (Some("DEFSNG W:DEFSTR V"), Ty::Str, Ty::S),
+            ])
+        } else {
+            (None, Ty::S, Ty::S)
+        };
+        let _ = ty_w;
         let tys = [("%", Ty::I), ("!", Ty::S), ("#", Ty::D), ("$", Ty::Str)];
         let mut vars: Vec<(String, String, Ty)> = vec![];
         for i in 0..nv {
-            let (suf, ty) = tys[rng.usize(4)];
+            let (suf, ty) = if rng.chance(1, 4) { ("", ty_v) } else { tys[rng.usize(4)] };
             let base = format!("V{}{}", i, suf);
             if rng.chance(1, 4) {
                 vars.push((format!("{}(2)", base), format!("{}(2)", base), ty));
@@ -141,11 +155,9 @@ impl Prop for C17 {
         }
         let comma = rng.chance(1, 3);
         let prompt = if rng.coin() { Some(*rng.pick(&["NAME", "a b", "é", ""])) } else { None };
-        // a DEFtype setting for the variables' first letters changes nothing: every target has its own suffix
-        let mut stmt = if rng.chance(1, 4) {
-            format!("{}:INPUT ", rng.pick(&["DEFSTR V-W", "DEFSTR A-Z", "DEFINT V-W", "DEFDBL V", "DEFSNG W:DEFSTR V"]))
-        } else {
-            String::from("INPUT ")
+        let mut stmt = match defstmt {
+            Some(d) => format!("{}:INPUT ", d),
+            None => String::from("INPUT "),
         };
         if comma {
             stmt.push(',');
